@@ -439,4 +439,12 @@ theorem Val.IsEqual_cnd (hook : EqHook) (same : Bool) (f f' : Form) (c c' : Cfg)
     Val.IsEqual hook same (.cnd f c kw op ex) (.cnd f' c' kw' op' ex') = condIsEqual hook kw op ex kw' op' ex' := by
   simp only [Val.IsEqual, hk, h, condIsEqual, bne_self_eq_false, Bool.false_eq_true, ↓reduceIte]
 
+/-- `slicesEqual` on a leaf that is a slice / array of Stack or Condition handles (`[]Stack`, `[n]Condition`, …; after
+repair F33 every element pair goes through the exported `IsEqual`): the lengths agree and every pair is equal. The
+loop stops at the first error, so the verdict is the conjunction. -/
+def handlesEqual (hook : EqHook) : List Val → List Val → Bool
+  | [], [] => true
+  | a :: as, b :: bs => (match Val.IsEqual hook false a b with | .ok none => true | _ => false) && handlesEqual hook as bs
+  | _, _ => false
+
 end Stackage
